@@ -4,6 +4,29 @@ import json, os
 HERE = os.path.dirname(os.path.dirname(os.path.abspath(__file__)))
 
 CLAIMS = {
+    "C03": ("path-order rule on optimize() + who-may-write closure after the best assignment + ORD abstract evaluation + SGN parity",
+            "Static: in the main loop the best agent is assigned from special_agents(self._population, 1, 1) after the step and the "
+            "snapshot, nothing reachable afterwards writes _population/_best_agent, the ORD evaluator proves the first unpacked "
+            "target is FIRST(1) of ascending internal cost, and sign handling in/out composes to the identity, so the internal "
+            "minimum of the last recorded list is the optimum in the task's direction.",
+            "Ties/NaN: any minimal element satisfies the statement; NaN not decided; Python sort semantics trusted.",
+            "DESIGN.md 4/C03"),
+    "C04": ("structured path rule on the main loop + who-may-write on the bookkeeping fields + symbolic boolean execution of __should_stop__ compared with the spec by truth table over canonical atoms",
+            "Static: loop-control order (step, snapshot, one error check, break iff stop, counter += 1 last, no other exit), "
+            "bookkeeping fields written only by optimize/__error_check__, counter reset to 1 and rates to [] per run, one rate "
+            "abs(1 - mean fitness) and one difference per cycle, and the stop predicate extracted symbolically and proven "
+            "propositionally equivalent to the three-disjunct specification (mirrored comparisons and local naming normalised); "
+            "patience >= 1 validated. Decides `at most max_cycles, never earlier, never later` for every history of rates.",
+            "Termination of loops inside optimizer steps and numeric rate values are not decided.",
+            "DESIGN.md 4/C04"),
+    "C16": ("order/window abstract interpretation of the 12 ranking helpers for both directions against a spec table + non-mutation + path-condition rule on the greedy selectors",
+            "Static: each helper is evaluated symbolically (source, objs|idx, ORIG|ASC|DESC, ALL|FIRST(n)|LAST(n), fresh) under MIN "
+            "and MAX and must equal the specification; helpers never store/mutate through a parameter; each _greedy_select_agent "
+            "implementation returns the challenger only on a path containing the strict cost comparison; population-level greedy "
+            "selection sorts both lists ascending and pairs by index; trim helpers keep FIRST(population_size) of ASC. Complete "
+            "for the order-theoretic content over all populations, n and both directions.",
+            "Python list.sort/sorted/slicing semantics; NaN/inf comparisons not decided.",
+            "DESIGN.md 4/C16"),
     "C01": ("agent-origin discipline: inductive invariant over every Agent construction / copy / store site + correction-chain shape (ast, alias tracking)",
             "Static inductive invariant: all 130+ Agent constructor sites, all model_copy sites, all stores to core fields and all "
             "aliases of a position list are enumerated; the only explicit position/cost/fitness construction is the root whose "
